@@ -42,8 +42,10 @@ ASSUMPTIONS = [
 FLOORS = {"quick": {"judged": 1000000, "schemaless_judged": 1000000},
           "thorough": {"judged": 15000000, "schemaless_judged": 15000000}}
 
-HOOK_FLOORS = {"quick": {"case_preserving_subclass_parsed_first": 10000},
-               "thorough": {"case_preserving_subclass_parsed_first": 100000}}
+HOOK_FLOORS = {"quick": {"case_preserving_subclass_parsed_first": 10000,
+                         "schema_based_load_with_directives": 2},
+               "thorough": {"case_preserving_subclass_parsed_first": 100000,
+                            "schema_based_load_with_directives": 2}}
 
 ALPHABET = "<>/%#()$aB1- \t é"
 BOUND = {"quick": 5, "thorough": 6}
@@ -352,7 +354,42 @@ def random_text(rng):
     return text
 
 
+def schema_based_load(ctx, when):
+    """The schema-based loader reads a text with %define and %include in
+    the same process (it supports both): whatever that leaves behind in
+    shared parser state must not make the schema-less loader accept them,
+    and the schema-less loads must not break it either."""
+    import ZConfig
+    inc = os.path.join(ctx.tmp, "c17inc.conf")
+    with open(inc, "w") as f:
+        f.write("k included\n")
+    schema = ZConfig.loadSchemaFile(io.StringIO(
+        "<schema><multikey name='k' attribute='k'/></schema>"))
+    text = "%%define place somewhere\nk $place\n%%include %s\n" % inc
+    try:
+        cfg, _ = ZConfig.loadConfigFile(schema, io.StringIO(text))
+        got = list(cfg.k)
+    except Exception as e:  # noqa
+        got = "%s: %s" % (type(e).__name__, e)
+    ctx.res.hook("schema_based_load_with_directives")
+    if got != ["somewhere", "included"]:
+        ctx.res.violate("schema-based-load-disturbed",
+                        {"text": text, "family": "history", "when": when},
+                        ["somewhere", "included"], got,
+                        detail="schema-based load %s the schema-less "
+                        "loads of this process" % when,
+                        vsig="history|%s" % when)
+
+
 def run_shard(ctx):
+    schema_based_load(ctx, "before")
+    try:
+        _run_shard(ctx)
+    finally:
+        schema_based_load(ctx, "after")
+
+
+def _run_shard(ctx):
     # an environment variable that is set but empty (a "%include $(VAR)"
     # whose argument expands to nothing is still an %include)
     os.environ["ZCV_EMPTY"] = ""
